@@ -271,6 +271,8 @@ class BoundedDict(DictMixin):
         return data
 
     def __delitem__(self, key):
+        if key not in self._data:
+            raise KeyError(key)
         if self._delete_cb is not None:
             self._delete_cb(key)
         del self._data[key]
